@@ -17,19 +17,21 @@ struct Elem
     static std::size_t blk_lo, blk_hi; static long outside;   // the object's block while a case runs: elements built in upstream memory must lie inside it
     long id;
     void where() { auto& U = verif::up(); if (U.inside(this)) { std::size_t o = U.off(this); bool ok = false; for (auto& b : U.blocks) if (b.live && b.off <= o && o + sizeof(Elem) <= b.off + b.size) { ok = true; break; } if (!ok) ++outside; } }
-    static void maybe() { if (seq++ == throw_at) throw boom{int(seq - 1)}; }
-    Elem() { maybe(); where(); id = ++constructed; live_ids.push_back(id); }
-    Elem(const Elem&) { maybe(); where(); id = ++constructed; live_ids.push_back(id); }
-    Elem(Elem&&) { maybe(); where(); id = ++constructed; live_ids.push_back(id); }
+    static std::string ev;   // the events of the case in order: A/F node obtained / given back, C<id> D<id> element built / destroyed, T throw
+    static void note(char k, long i) { char b[24]; if (i) std::snprintf(b, sizeof b, "%s%c%ld", ev.empty() ? "" : ",", k, i); else std::snprintf(b, sizeof b, "%s%c", ev.empty() ? "" : ",", k); ev += b; }
+    static void maybe() { if (seq++ == throw_at) { note('T', 0); throw boom{int(seq - 1)}; } }
+    Elem() { maybe(); where(); id = ++constructed; live_ids.push_back(id); note('C', id); }
+    Elem(const Elem&) { maybe(); where(); id = ++constructed; live_ids.push_back(id); note('C', id); }
+    Elem(Elem&&) { maybe(); where(); id = ++constructed; live_ids.push_back(id); note('C', id); }
     ~Elem()
     {
-        ++destroyed; dtor_ids.push_back(id);
+        ++destroyed; dtor_ids.push_back(id); note('D', id);
         auto it = std::find(live_ids.begin(), live_ids.end(), id);
         if (it == live_ids.end()) ++double_destroy; else live_ids.erase(it);
     }
-    static void reset_counters(long t) { constructed = destroyed = seq = double_destroy = 0; outside = 0; throw_at = t; live_ids.clear(); dtor_ids.clear(); }
+    static void reset_counters(long t) { constructed = destroyed = seq = double_destroy = 0; outside = 0; throw_at = t; live_ids.clear(); dtor_ids.clear(); ev.clear(); }
 };
-long Elem::constructed, Elem::destroyed, Elem::throw_at = -1, Elem::seq, Elem::double_destroy, Elem::outside; std::size_t Elem::blk_lo, Elem::blk_hi; std::vector<long> Elem::live_ids, Elem::dtor_ids;
+long Elem::constructed, Elem::destroyed, Elem::throw_at = -1, Elem::seq, Elem::double_destroy, Elem::outside; std::size_t Elem::blk_lo, Elem::blk_hi; std::vector<long> Elem::live_ids, Elem::dtor_ids; std::string Elem::ev;
 struct alignas(16) Blob16 { char c[16]; };
 
 struct cfg_t { std::size_t nc, na, nb; std::vector<std::pair<std::size_t, std::size_t>> raw; std::string* log; long retry_n = -1, retry_k = -1; };
@@ -121,6 +123,7 @@ static void run_case(std::size_t cap, long throw_at, const std::string& post, st
     Elem::reset_counters(throw_at);
     up_alloc leaf;
     const char* ex = nullptr;
+    U.ev_hook = [](char k) { Elem::note(k, 0); };
     {
         joint_ptr<T, up_alloc> p(leaf);
         try { p = allocate_joint<T>(leaf, joint_size(cap)); }
@@ -163,7 +166,9 @@ static void run_case(std::size_t cap, long throw_at, const std::string& post, st
             }
         }
     }
+    U.ev_hook = nullptr;
     log += " end |" + U.take() + " |";
+    log += " ev=" + (Elem::ev.empty() ? std::string("-") : Elem::ev);
     std::snprintf(buf, sizeof buf, " constructed=%ld destroyed=%ld double=%ld live=%zu outside=%ld", Elem::constructed, Elem::destroyed, Elem::double_destroy, Elem::live_ids.size(), Elem::outside);
     log += buf;
     // the allocator must still be usable
